@@ -107,6 +107,22 @@ def handleSm : List String → String
       let r := shouldSample s a
       s!"dec={decisionCode r.decision} ts={showTs r.traceState} calls={consults s a}"
     | _, _, _ => "bad-op"
+  -- a span started through a real Tracer whose sampler is `spec` and whose id generator hands out `tid`; `how` = the way
+  -- the parent is supplied: c (options.parent = SpanContext) | x (options.parent = Context with the span) | a (the span
+  -- active on the thread) | r (the span active on the thread, options.parent = Context with is_root_span)
+  | ["span", spec, parent, tid, how] =>
+    let via : Option ParentVia := (match how with
+      | "c" => some .spanContext
+      | "x" => some .context
+      | "a" => some .active
+      | "r" => some .root
+      | _ => none)
+    match samplerArg spec, parentArg parent, traceIdArg tid, via with
+    | some s, some p, some tid, some via =>
+      let st := sampleSpan s via p tid
+      let dec := if st.sampled then "2" else if st.recording then "1" else "0"
+      s!"dec={dec} ts={showEntries st.traceState} calls={st.consulted} tid={hexArg st.traceId} sdec={decisionCode st.result.decision}"
+    | _, _, _, _ => "bad-op"
   | _ => "bad-op"
 
 def C12.handlers : List (String × (List String → String)) := [("sm", handleSm)]
